@@ -3,6 +3,7 @@ import SeqVerif.Model.BulkTime
 import SeqVerif.Model.BulkMeta
 import SeqVerif.Model.BulkMetaCodec
 import SeqVerif.Model.BulkCompose
+import SeqVerif.Model.BulkResponse
 import SeqVerif.Model.CollectorLemmas
 import SeqVerif.Extracted.C10
 /-!
@@ -38,6 +39,14 @@ theorem c10_metas_roundtrip (ms : List MetaRec) (h : ∀ m, m ∈ ms → m.Ok)
     (hl : ∀ m, m ∈ ms → (encMeta m).length < 4294967296) :
     (decodeDocs (encodeMetas ms).length (encodeMetas ms)).bind (fun rs => rs.mapM decMeta) = some ms :=
   decode_encodeMetas ms h hl
+
+/-- **C10 (the response lists exactly that many created items).**  For every count: the body `writeBulkResponse`
+writes is `{"took":<ms>,"errors":false,"items":[` + the items + `]}`, and its items array reads back as exactly
+`total` items `{"create":{"status":201}}` separated by single commas (no trailing comma, whatever the count). -/
+theorem c10_response_lists_items (tookMs total : Nat) :
+    bulkResponse tookMs total = respHead ++ decimal tookMs ++ respMid ++ joinItems total ++ respTail ∧
+    parseItemList (writeItems total ++ respTail) = some total :=
+  ⟨by rw [bulkResponse, writeItems_eq], parseItemList_response total⟩
 
 /-- request body made of entries followed by trailing blank lines -/
 def bodyOf (es : List Entry) (trail : List Bytes) : Bytes := render (es.flatMap Entry.lines ++ trail)
@@ -438,6 +447,12 @@ theorem c10_x_indexer :
       "i.metas[tokensIndex].Tokens = i.index(i.mapping[string(fieldName)], i.metas[tokensIndex].Tokens, fieldName, nodeValue)"] := by
   decide
 
+/-- `writeBulkResponse`: head, `took`, middle, the item loop (`for i := 0; i < total; i++`, a comma when `i != 0`,
+then the item), tail - any other structure (chunking, builders) has to be re-modelled -/
+theorem c10_x_response_writer :
+    responseWrites = ["`{\"took\":`", "`,\"errors\":false,\"items\":[`", "for i := 0; i < total; i++", "if i != 0 `,`",
+      "itemCreated", "`]}`"] ∧ responseItem = "{\"create\":{\"status\":201}}" := by decide
+
 /-! ## Non-vacuity -/
 
 section examples
@@ -479,6 +494,10 @@ example : processDocuments E16 5 kindEx mkEx true (bodyOf ([esEx[0]] ++ esEx[1] 
 example : (decodeDocs (encodeMetas [⟨1790000000000, 77, 2, [⟨[95, 97, 108, 108, 95], []⟩, ⟨[107], [118]⟩]⟩]).length
     (encodeMetas [⟨1790000000000, 77, 2, [⟨[95, 97, 108, 108, 95], []⟩, ⟨[107], [118]⟩]⟩])).bind (fun rs => rs.mapM decMeta) =
     some [⟨1790000000000, 77, 2, [⟨[95, 97, 108, 108, 95], []⟩, ⟨[107], [118]⟩]⟩] := by decide
+
+/-- two items: one comma, no trailing comma; a trailing comma does not read back -/
+example : writeItems 2 = itemCreated ++ 44 :: itemCreated ∧
+    parseItemList (itemCreated ++ [44] ++ respTail) = none := by decide
 
 section index
 open SV.BulkIndex SV.Tok SV.Parser
